@@ -536,7 +536,9 @@ pub struct HCfg {
 
 pub fn gen_id(r: &mut Xo, n: usize, unknown: bool) -> MachineId {
     let raw = if unknown && r.chance(1, 6) || n == 0 {
-        *r.pick(&[n, n + 1, usize::MAX, u32::MAX as usize])
+        // unknown ids, among them ids that coincide with an existing machine in their low 8, 16 or 32 bits
+        let alias = if n > 0 { r.below(n as u64) as usize } else { 0 };
+        *r.pick(&[n, n + 1, usize::MAX, u32::MAX as usize, (1usize << 32) + alias, (3usize << 32) + alias, (1usize << 16) + alias, 256 + alias, 1usize << 32, usize::MAX - alias])
     } else {
         r.below(n as u64) as usize
     };
